@@ -279,7 +279,6 @@ void GMGPolar::initializeSolution()
         int start_level_depth = 0;
         Level& level          = levels_[start_level_depth];
         assign(level.solution(), 0.0); // Assign zero initial guess if not using FMG
-        VERIF_OP1("Zero", start_level_depth, level.solution());
         VERIF_EV("InitZero");
 
         /* Consider setting the boundary conditions u_D and u_D_Interior if DirBC_Interior to the initial solution */
